@@ -31,6 +31,11 @@ build() { # $1 = extra go build flags, $2 = output
 ) 9>.build/lock || exit 2
 
 if [ "$id" = "replay" ]; then
+  prop="$(sed -n 's/.*"property": *"\([A-Z0-9]*\)".*/\1/p' "$tier" | head -1)"
+  if [ -n "$prop" ] && [ "$(./.build/check israce "$prop")" = "yes" ]; then
+    ( flock 9; build "-race" .build/check-race ) 9>.build/lock || exit 2
+    exec ./.build/check-race replay "$tier"
+  fi
   exec ./.build/check replay "$tier"
 fi
 if [ "$(./.build/check israce "$id")" = "yes" ]; then
